@@ -81,4 +81,372 @@ theorem fKey_order (a b : Bytes) : klt (fKey a) (fKey b) = klt a b := by
 
 theorem fKey_gt_empty (k : Bytes) : sgt (fKey k) [] = true := rfl
 
+/-! ### one page -/
+
+/-- the loop with counter and `break` is "filter the keys after `afterKey`, take `Qty`" -/
+theorem pageLoop_eq (after : Str) (qty : Nat) (ks : List Bytes) (cnt : Nat) :
+    pageLoop after qty ks cnt = (((ks.map fKey).filter (fun s => sgt s after)).take (qty - cnt)) := by
+  induction ks generalizing cnt with
+  | nil => simp [pageLoop]
+  | cons k r ih =>
+    simp only [pageLoop, List.map_cons, List.filter_cons]
+    by_cases hk : sgt (fKey k) after = true
+    · simp only [hk, if_true]
+      by_cases hc : cnt ≥ qty
+      · simp [hc, show qty - cnt = 0 by omega]
+      · simp only [hc, if_false, ih]
+        rw [show qty - cnt = (qty - (cnt + 1)) + 1 by omega, List.take_succ_cons]
+    · simp only [hk, Bool.false_eq_true, if_false, ih]
+
+/-- a page of the ordered map / of any store whose key listing is `ks` -/
+def pageOf (ks : List Str) (q : Nat) (after : Str) : List Str :=
+  (ks.filter (fun s => sgt s after)).take q
+
+/-! ### chunks -/
+
+theorem chunkF_fuel {α : Type} (q : Nat) (hq : 1 ≤ q) :
+    ∀ (f g : Nat) (l : List α), l.length ≤ f → l.length ≤ g → chunkF q f l = chunkF q g l := by
+  intro f
+  induction f with
+  | zero =>
+    intro g l hf hg
+    have : l = [] := List.eq_nil_of_length_eq_zero (by omega)
+    subst this
+    cases g <;> rfl
+  | succ f ih =>
+    intro g l hf hg
+    cases l with
+    | nil => cases g <;> rfl
+    | cons x r =>
+      cases g with
+      | zero => simp at hg
+      | succ g =>
+        simp only [chunkF]
+        have hl : ((x :: r).drop q).length ≤ r.length := by
+          simp only [List.length_drop, List.length_cons]; omega
+        simp only [List.length_cons] at hf hg
+        rw [ih g _ (by omega) (by omega)]
+
+theorem chunkF_flatten {α : Type} (q : Nat) (hq : 1 ≤ q) :
+    ∀ (f : Nat) (l : List α), l.length ≤ f → (chunkF q f l).flatten = l := by
+  intro f
+  induction f with
+  | zero =>
+    intro l hf
+    have : l = [] := List.eq_nil_of_length_eq_zero (by omega)
+    subst this; rfl
+  | succ f ih =>
+    intro l hf
+    cases l with
+    | nil => rfl
+    | cons x r =>
+      simp only [chunkF, List.flatten_cons]
+      have hl : ((x :: r).drop q).length ≤ f := by
+        simp only [List.length_drop, List.length_cons] at hf ⊢; omega
+      rw [ih _ hl, List.take_append_drop]
+
+/-- the chunks of a list concatenate to the list (page size ≥ 1) -/
+theorem chunk_flatten {α : Type} (q : Nat) (hq : 1 ≤ q) (l : List α) : (chunk q l).flatten = l :=
+  chunkF_flatten q hq _ l (Nat.le_refl _)
+
+/-- every chunk is non-empty and has at most `q` elements -/
+theorem chunkF_sizes {α : Type} (q : Nat) (hq : 1 ≤ q) :
+    ∀ (f : Nat) (l : List α), ∀ c ∈ chunkF q f l, c ≠ [] ∧ c.length ≤ q := by
+  intro f
+  induction f with
+  | zero => intro l c hc; simp [chunkF] at hc
+  | succ f ih =>
+    intro l c hc
+    cases l with
+    | nil => simp [chunkF] at hc
+    | cons x r =>
+      simp only [chunkF, List.mem_cons] at hc
+      rcases hc with hc | hc
+      · subst hc
+        refine ⟨?_, by simp [List.length_take]; omega⟩
+        obtain ⟨q', rfl⟩ : ∃ q', q = q' + 1 := ⟨q - 1, by omega⟩
+        simp
+      · exact ih _ c hc
+
+/-! ### the client loop over an ascending listing -/
+
+abbrev Asc (l : List Str) : Prop := l.Pairwise (fun a b => klt a b = true)
+
+theorem asc_le_getLast {l : List Str} (h : Asc l) {last : Str} (hl : l.getLast? = some last) :
+    ∀ y ∈ l, klt last y = false := by
+  intro y hy
+  obtain ⟨l', rfl⟩ : ∃ l', l = l' ++ [last] := by
+    have hne : l ≠ [] := by intro e; subst e; simp at hl
+    refine ⟨l.dropLast, ?_⟩
+    have := List.dropLast_concat_getLast hne
+    rw [List.getLast?_eq_some_getLast hne] at hl
+    cases hl
+    exact this.symm
+  rcases List.mem_append.mp hy with hy | hy
+  · have := (List.pairwise_append.mp h).2.2 y hy last (by simp)
+    exact klt_asymm this
+  · simp only [List.mem_singleton] at hy; subst hy; exact klt_irrefl _
+
+/-- Core of the pagination argument.  The full ascending listing is `pre ++ L`; everything in `pre`
+    is `≤ after`, everything in `L` is `> after`; then the loop returns `L` in chunks of `q` and
+    stops on the first empty page, using at most `|L| + 1` calls. -/
+theorem paginate_asc (q : Nat) (hq : 1 ≤ q) (K : List Str) (hK : Asc K) :
+    ∀ (fuel : Nat) (pre L : List Str) (after : Str), K = pre ++ L →
+      (∀ x ∈ pre, sgt x after = false) → (∀ x ∈ L, sgt x after = true) → L.length < fuel →
+      paginate (fun a => some (pageOf K q a)) fuel after = (chunkF q fuel L, LoopEnd.done) := by
+  intro fuel
+  induction fuel with
+  | zero => intro pre L after _ _ _ hf; omega
+  | succ fuel ih =>
+    intro pre L after hKe hpre hL hf
+    have hfilter : K.filter (fun s => sgt s after) = L := by
+      rw [hKe, List.filter_append]
+      have h1 : pre.filter (fun s => sgt s after) = [] := by
+        rw [List.filter_eq_nil_iff]; intro x hx; simp [hpre x hx]
+      have h2 : L.filter (fun s => sgt s after) = L := by
+        rw [List.filter_eq_self]; intro x hx; exact hL x hx
+      rw [h1, h2, List.nil_append]
+    have hpg : pageOf K q after = L.take q := by simp only [pageOf, hfilter]
+    simp only [paginate, hpg]
+    cases L with
+    | nil => simp [chunkF]
+    | cons x r =>
+      obtain ⟨q', rfl⟩ : ∃ q', q = q' + 1 := ⟨q - 1, by omega⟩
+      have hne : (x :: r).take (q' + 1) ≠ [] := by simp
+      have hlast := List.getLast?_eq_some_getLast hne
+      rw [hlast]
+      simp only [chunkF]
+      generalize hlastdef : ((x :: r).take (q' + 1)).getLast hne = last at hlast ⊢
+      have hKe' : K = (pre ++ (x :: r).take (q' + 1)) ++ (x :: r).drop (q' + 1) := by
+        rw [List.append_assoc, List.take_append_drop]; exact hKe
+      have hasc : Asc ((x :: r).take (q' + 1) ++ (x :: r).drop (q' + 1)) := by
+        rw [List.take_append_drop]
+        rw [hKe] at hK
+        exact (List.pairwise_append.mp hK).2.1
+      have hasc' := List.pairwise_append.mp hasc
+      have hlast_mem : last ∈ (x :: r).take (q' + 1) := hlastdef ▸ List.getLast_mem hne
+      have hlast_L : last ∈ x :: r := List.mem_of_mem_take hlast_mem
+      have h_after_last : klt after last = true := hL last hlast_L
+      have hrec := ih (pre ++ (x :: r).take (q' + 1)) ((x :: r).drop (q' + 1)) last hKe'
+        (by
+          intro y hy
+          rcases List.mem_append.mp hy with hy | hy
+          · -- y ≤ after < last
+            have h1 : klt after y = false := hpre y hy
+            show klt last y = false
+            cases h : klt last y with
+            | false => rfl
+            | true => rw [klt_trans h_after_last h] at h1; cases h1
+          · exact asc_le_getLast hasc'.1 hlast y hy)
+        (by
+          intro y hy
+          exact hasc'.2.2 last hlast_mem y hy)
+        (by simp only [List.length_drop, List.length_cons] at hf ⊢; omega)
+      rw [hrec]
+
+/-- Over any ascending key listing, for every page size ≥ 1 and enough calls (`> |K|`), the loop
+    started with the empty `afterKey` ends normally and its pages are the chunks of the listing. -/
+theorem paginate_all (q : Nat) (hq : 1 ≤ q) (K : List Str) (hK : Asc K)
+    (hpos : ∀ x ∈ K, sgt x [] = true) (fuel : Nat) (hf : K.length < fuel) :
+    paginate (fun a => some (pageOf K q a)) fuel [] = (chunk q K, LoopEnd.done) := by
+  rw [paginate_asc q hq K hK fuel [] K [] rfl (by simp) hpos hf]
+  rw [chunk, chunkF_fuel q hq fuel K.length K (by omega) (Nat.le_refl _)]
+
+/-! ### GetKeysPaged over a store -/
+
+theorem getKeysPaged_eq (S : Store) (pfx : Str) (p : Bytes) (hp : prefixOf pfx = some p)
+    (q : Nat) (a : Str) :
+    getKeysPaged S true pfx q a = some (pageOf ((S.keysWithPrefix p).map fKey) q a) := by
+  simp only [prefixOf] at hp
+  simp only [getKeysPaged, hp, if_true, pageLoop_eq, Nat.sub_zero, pageOf]
+
+theorem getKeysPaged_bad (S : Store) (b : Bool) (pfx : Str) (hp : prefixOf pfx = none)
+    (q : Nat) (a : Str) : getKeysPaged S b pfx q a = none := by
+  simp only [prefixOf] at hp
+  simp only [getKeysPaged, hp]
+
+theorem getKeysPaged_unknown_root (S : Store) (pfx : Str) (q : Nat) (a : Str) :
+    getKeysPaged S false pfx q a = none := by
+  simp only [getKeysPaged]
+  split <;> simp
+
+theorem asc_keys {es : Entries} (hs : OMap.Sorted es) (p : Bytes) :
+    Asc ((OMap.keysWithPrefix p es).map fKey) := by
+  have h1 := (OMap.sorted_iff_pairwise es).mp hs
+  simp only [Asc, OMap.keysWithPrefix, List.map_map]
+  rw [List.pairwise_map]
+  refine (h1.filter _).imp ?_
+  intro a b hab
+  simpa [fKey_order] using hab
+
+theorem mem_keysWithPrefix (p k : Bytes) (es : Entries) :
+    k ∈ OMap.keysWithPrefix p es ↔ p.isPrefixOf k = true ∧ ∃ v, (k, v) ∈ es := by
+  simp only [OMap.keysWithPrefix, List.mem_map, List.mem_filter]
+  constructor
+  · rintro ⟨e, ⟨he, hp⟩, rfl⟩; exact ⟨hp, e.2, he⟩
+  · rintro ⟨hp, v, hv⟩; exact ⟨(k, v), ⟨hv, hp⟩, rfl⟩
+
+/-- **C38_pages_spec** (the specification side: the ordered map `es`).  For every prefix, page
+    size `q ≥ 1` and every bound of calls above the number of matching keys, the client loop ends
+    on an empty page and the pages are the consecutive `q`-chunks of `keysWithPrefix p`. -/
+theorem C38_pages_spec {es : Entries} (hs : OMap.Sorted es) (pfx : Str) (p : Bytes)
+    (hp : prefixOf pfx = some p) (q : Nat) (hq : 1 ≤ q) (fuel : Nat)
+    (hf : (OMap.keysWithPrefix p es).length < fuel) :
+    paginate (getKeysPaged (mapStore es) true pfx q) fuel [] =
+      (chunk q ((OMap.keysWithPrefix p es).map fKey), LoopEnd.done) := by
+  have hfun : getKeysPaged (mapStore es) true pfx q =
+      fun a => some (pageOf ((OMap.keysWithPrefix p es).map fKey) q a) := by
+    funext a; rw [getKeysPaged_eq _ pfx p hp]; rfl
+  rw [hfun]
+  apply paginate_all q hq _ (asc_keys hs p)
+  · intro x hx
+    obtain ⟨k, _, rfl⟩ := List.mem_map.mp hx
+    rfl
+  · simpa using hf
+
+/-- **C38_pages_partition** — FULL STATEMENT (false for the code, see the counterexample): the same
+    with the Go trie `t` in place of the map it represents, for every prefix.
+    Proved for every state, prefix, page size ≥ 1 outside the region of the inherited trie finding
+    `prefix-zero-nibble` (`trimRegion`: the prefix ends in a zero nibble and some stored key has
+    the nibble prefix without that nibble but not the byte prefix). -/
+theorem C38_pages_partition_partial {t : Trie} {es : Entries} (h : Rep t es) (pfx : Str) (p : Bytes)
+    (hp : prefixOf pfx = some p) (hreg : trimRegion p es = false) (q : Nat) (hq : 1 ≤ q)
+    (fuel : Nat) (hf : (OMap.keysWithPrefix p es).length < fuel) :
+    paginate (getKeysPaged (trieStore t) true pfx q) fuel [] =
+      (chunk q ((OMap.keysWithPrefix p es).map fKey), LoopEnd.done) := by
+  have hfun : getKeysPaged (trieStore t) true pfx q = getKeysPaged (mapStore es) true pfx q := by
+    funext a
+    rw [getKeysPaged_eq _ pfx p hp, getKeysPaged_eq _ pfx p hp]
+    simp only [trieStore, mapStore, C02.C02_keysWithPrefix_partial h p hreg]
+  rw [hfun]
+  exact C38_pages_spec h.sorted pfx p hp q hq fuel hf
+
+/-- in particular for every prefix whose last byte has a non-zero low nibble, and the empty one -/
+theorem C38_pages_partition_nonzero {t : Trie} {es : Entries} (h : Rep t es) (pfx : Str) (p : Bytes)
+    (hp : prefixOf pfx = some p) (hz : lowNibbleZero p = false) (q : Nat) (hq : 1 ≤ q)
+    (fuel : Nat) (hf : (OMap.keysWithPrefix p es).length < fuel) :
+    paginate (getKeysPaged (trieStore t) true pfx q) fuel [] =
+      (chunk q ((OMap.keysWithPrefix p es).map fKey), LoopEnd.done) :=
+  C38_pages_partition_partial h pfx p hp (by simp [trimRegion, hz]) q hq fuel hf
+
+/-- the concatenated pages are exactly the matching keys, each once, in ascending byte order -/
+theorem C38_pages_concat_partial {t : Trie} {es : Entries} (h : Rep t es) (pfx : Str) (p : Bytes)
+    (hp : prefixOf pfx = some p) (hreg : trimRegion p es = false) (q : Nat) (hq : 1 ≤ q)
+    (fuel : Nat) (hf : (OMap.keysWithPrefix p es).length < fuel) :
+    let r := paginate (getKeysPaged (trieStore t) true pfx q) fuel []
+    r.2 = LoopEnd.done ∧
+    r.1.flatten = (OMap.keysWithPrefix p es).map fKey ∧
+    (∀ pg ∈ r.1, pg ≠ [] ∧ pg.length ≤ q) ∧
+    (OMap.keysWithPrefix p es).Pairwise (fun a b => klt a b = true) ∧
+    (OMap.keysWithPrefix p es).Nodup ∧
+    (∀ k, k ∈ OMap.keysWithPrefix p es ↔ p.isPrefixOf k = true ∧ ∃ v, (k, v) ∈ es) := by
+  intro r
+  have hr : r = (chunk q ((OMap.keysWithPrefix p es).map fKey), LoopEnd.done) :=
+    C38_pages_partition_partial h pfx p hp hreg q hq fuel hf
+  have hasc : (OMap.keysWithPrefix p es).Pairwise (fun a b => klt a b = true) := by
+    have := asc_keys h.sorted p
+    simp only [Asc] at this
+    rw [List.pairwise_map] at this
+    exact this.imp (fun hab => by simpa [fKey_order] using hab)
+  refine ⟨by rw [hr], by rw [hr]; exact chunk_flatten q hq _, ?_, hasc,
+    hasc.imp (fun hab => klt_ne hab), fun k => mem_keysWithPrefix p k es⟩
+  intro pg hpg
+  rw [hr] at hpg
+  exact chunkF_sizes q hq _ _ pg hpg
+
+/-- inside the region: state `{1f ↦ 01}`, prefix `0x10`, page size 1 — the loop lists `0x1f` -/
+theorem C38_pages_partition_counterexample :
+    ∃ (t : Trie) (es : Entries) (pfx : Str) (p : Bytes) (q fuel : Nat), Rep t es ∧
+      prefixOf pfx = some p ∧ 1 ≤ q ∧ (OMap.keysWithPrefix p es).length < fuel ∧
+      paginate (getKeysPaged (trieStore t) true pfx q) fuel [] ≠
+        (chunk q ((OMap.keysWithPrefix p es).map fKey), LoopEnd.done) :=
+  ⟨Trie.put Trie.nil [0x1f] [0x01], OMap.upsert [0x1f] [0x01] [], ['0', 'x', '1', '0'], [0x10], 1, 3,
+    Rep.empty.put _ _, by decide, by decide, by decide, by decide⟩
+
+/-- GetKeysPaged hands the block field to the storage as a state root: with the hash of a block
+    (unknown as a root) the call fails although the prefix is valid and the state has keys -/
+theorem C38_block_counterexample :
+    ∃ (t : Trie) (es : Entries) (pfx : Str), Rep t es ∧
+      getKeysPaged (trieStore t) (Addr.blk != Addr.blk) pfx 1 [] = none ∧
+      getKeysPaged (mapStore es) true pfx 1 [] = some [['0', 'x', '1', 'f']] :=
+  ⟨Trie.put Trie.nil [0x1f] [0x01], OMap.upsert [0x1f] [0x01] [], ['0', 'x'],
+    Rep.empty.put _ _, by decide, by decide⟩
+
+/-! ### GetPairs -/
+
+theorem sortPairs_sorted {es : Entries} (hs : OMap.Sorted es) :
+    sortPairs (es.map (fun e => (fKey e.1, fKey e.2))) = es.map (fun e => (fKey e.1, fKey e.2)) := by
+  apply List.mergeSort_of_pairwise
+  rw [List.pairwise_map]
+  refine ((OMap.sorted_iff_pairwise es).mp hs).imp ?_
+  intro a b hab
+  have : klt (fKey b.1) (fKey a.1) = false := by rw [fKey_order]; exact klt_asymm hab
+  simp [this]
+
+theorem specPairs_nil (es : Entries) : specPairs [] es = es.map (fun e => (fKey e.1, fKey e.2)) := by
+  have : es.filter (fun e => ([] : Bytes).isPrefixOf e.1) = es := by
+    rw [List.filter_eq_self]; intro a _; rfl
+  simp only [specPairs, this]
+
+/-- the listing that comes from `Entries()` (no prefix, `""`, `"0x"`) -/
+theorem getPairs_all {t : Trie} {es : Entries} (h : Rep t es) (pfx : Option Str)
+    (hp : pfx = none ∨ pfx = some [] ∨ pfx = some ['0', 'x']) :
+    getPairs (trieStore t) true pfx = some (specPairs [] es) := by
+  simp only [getPairs, Bool.not_true, Bool.false_eq_true, if_false, hp, if_true, trieStore,
+    C02.C02_entries h, List.map_map, specPairs_nil]
+  have : ((fun e : Bytes × Option Bytes => (fKey e.1, optHex e.2)) ∘
+      fun e : Bytes × Bytes => (e.1, some e.2)) = fun e => (fKey e.1, fKey e.2) := by
+    funext e; rfl
+  rw [this, sortPairs_sorted h.sorted]
+
+/-- **C38_pairs_all**: GetPairs without a prefix (nil, `""` or `"0x"`) returns every key of the
+    state with its current value (all states; no side condition). -/
+theorem C38_pairs_all {t : Trie} {es : Entries} (h : Rep t es) (pfx : Option Str)
+    (hp : pfx = none ∨ pfx = some [] ∨ pfx = some ['0', 'x']) :
+    getPairs (trieStore t) true pfx = some (es.map (fun e => (fKey e.1, fKey e.2))) := by
+  rw [getPairs_all h pfx hp, specPairs_nil]
+
+/-- the listing through `GetKeysWithPrefix` + `GetStorage` -/
+theorem getPairs_prefix {t : Trie} {es : Entries} (h : Rep t es) (pfx : Str) (p : Bytes)
+    (hp : hexToBytes? pfx = some p) (hne : ¬ (pfx = [] ∨ pfx = ['0', 'x']))
+    (hreg : trimRegion p es = false) :
+    getPairs (trieStore t) true (some pfx) = some (specPairs p es) := by
+  have hc : ¬ (some pfx = none ∨ some pfx = some [] ∨ some pfx = some ['0', 'x']) := by
+    simpa using hne
+  simp only [getPairs, Bool.not_true, Bool.false_eq_true, if_false, hc, Option.getD_some, hp,
+    trieStore, C02.C02_keysWithPrefix_partial h p hreg, OMap.keysWithPrefix, List.map_map, specPairs]
+  congr 1
+  apply List.map_congr_left
+  intro e he
+  have hmem : e ∈ es := (List.mem_filter.mp he).1
+  have hg : OMap.get e.1 es = some e.2 := OMap.get_of_mem_sorted h.sorted hmem
+  simp only [Function.comp, C02.C02_get_present h e.1 e.2 hg, optHex]
+
+/-- **C38_pairs** — FULL STATEMENT (false for the code inside `trimRegion`): for every state and
+    every well-formed prefix string denoting the bytes `p`, GetPairs returns exactly the entries
+    whose key has the byte prefix `p`, ascending, each with its current value. -/
+theorem C38_pairs_partial {t : Trie} {es : Entries} (h : Rep t es) (pfx : Str) (p : Bytes)
+    (hp : hexToBytes? pfx = some p) (hreg : trimRegion p es = false) :
+    getPairs (trieStore t) true (some pfx) = some (specPairs p es) := by
+  by_cases hne : pfx = [] ∨ pfx = ['0', 'x']
+  · have hp0 : p = [] := by
+      rcases hne with e | e
+      · subst e; simp [hexToBytes?] at hp
+      · subst e; simp [hexToBytes?, ofHexChars?] at hp; exact hp
+    subst hp0
+    exact getPairs_all h (some pfx) (by rcases hne with e | e <;> simp [e])
+  · exact getPairs_prefix h pfx p hp hne hreg
+
+/-- inside the region: state `{1f ↦ 01}`, `GetPairs("0x10")` lists `0x1f` -/
+theorem C38_pairs_counterexample :
+    ∃ (t : Trie) (es : Entries) (pfx : Str) (p : Bytes), Rep t es ∧ hexToBytes? pfx = some p ∧
+      getPairs (trieStore t) true (some pfx) ≠ some (specPairs p es) :=
+  ⟨Trie.put Trie.nil [0x1f] [0x01], OMap.upsert [0x1f] [0x01] [], ['0', 'x', '1', '0'], [0x10],
+    Rep.empty.put _ _, by decide, by decide⟩
+
+/-- a malformed prefix is an error in both calls, whatever the state -/
+theorem C38_bad_prefix (S : Store) (b : Bool) (pfx : Str) (q : Nat) (a : Str)
+    (hp : prefixOf pfx = none) : getKeysPaged S b pfx q a = none :=
+  getKeysPaged_bad S b pfx hp q a
+
 end Gossamer.C38
